@@ -571,6 +571,37 @@ for cv in ['bn254','bls12-377','bls12-381','bls24-315','bls24-317','bw6-633','bw
 	s.domain1 = fft.NewDomain(factor*sizeSystem, fft.WithoutPrecompute())
 ''')])
 save('benign-ordguard-domain','C03','backend/plonk/bn254/prove.go','the quotient-domain factor chosen first, one NewDomain call (all seven curves)')
+sb='frontend/cs/scs/builder.go'
+m('memoemit-splitsum','C04',['MEMO-EMIT'],sb,'''	o, found := builder.addConstraintExist(acc, r[0], qC)
+	if !found {
+		o = builder.newInternalVariable()
+		builder.addAddGate(acc, r[0], uint32(o.VID), qC)
+	}
+''','''	o, found := builder.addConstraintExist(acc, r[0], qC)
+	if !found {
+		if r[0].VID == acc.VID && k == nil {
+			// acc + c*acc: a term on the same wire, no gate needed
+			o = expr.NewTerm(acc.VID, builder.cs.Add(acc.Coeff, r[0].Coeff))
+		} else {
+			o = builder.newInternalVariable()
+			builder.addAddGate(acc, r[0], uint32(o.VID), qC)
+		}
+	}
+''',note='a shortcut in the not-found branch returns a term without emitting the gate that addConstraintExist has already recorded')
+m('memokey-vid','C05',['MEMO-KEY'],sb,'''	_, ok := builder.mtBooleans[v.(expr.Term[E])]
+	return ok''','''	_, ok := builder.mtBooleans[expr.NewTerm(v.(expr.Term[E]).VID, builder.tOne)]
+	return ok''',note='IsBoolean looks the wire up with a unit coefficient: every multiple of a boolean wire is reported boolean')
+edit(sb,[('''	_, ok := builder.mtBooleans[v.(expr.Term[E])]
+	return ok''','''	t := v.(expr.Term[E])
+	if _, ok := builder.mtBooleans[t]; ok {
+		return true
+	}
+	return false'''),('''	builder.mtBooleans[v.(expr.Term[E])] = struct{}{}''','''	key := v.(expr.Term[E])
+	builder.mtBooleans[key] = struct{}{}''')])
+save('benign-memokey-temp','C05',sb,'the boolean-table accesses rewritten with temporaries and an explicit branch')
+m('optparam-gkr','C10',['EFF-OPTSLICE'],'constraint/bls12-381/solver.go','''		opts = append(opts[:len(opts):len(opts)],
+''','''		opts = append(opts,
+''',note='F13 reintroduced: GKR overrides appended in place to the option slice received from the caller')
 json.dump({'comment':'selftest mutants: each patch breaks one rule instance and must be detected by the listed rule(s) of its property; produced by tools/make_selftest.py','mutants':M}, open(os.path.join(root,'selftest','mutants.json'),'w'), indent=1)
 subprocess.run(['git','-C','/repo','worktree','remove','--force',WT],capture_output=True)
 print(len(M),'mutants')
